@@ -32,6 +32,9 @@ PbName(v, i) == "~P" \o ToString(v) \o "." \o ToString(i) \o "~"
 PbText(c, v, r) ==
   LET i == ValIdx(c, v, r) IN
     IF c.div = "second" /\ v = c.nlev /\ i = 2 THEN "-----"
+    \* "nullkey": the second value of the innermost level is null (a key value like any other; only drawn where the
+    \* page_by column is displayed as cells, so that no heading text is in question)
+    ELSE IF c.div = "nullkey" /\ v = c.nlev /\ i = 2 THEN "<null>"
     \* "resume": the value after the divider group has the text shown before it (X, -----, X, Y, ...)
     ELSE IF c.div = "resume" /\ v = c.nlev THEN (IF i = 2 THEN "-----" ELSE IF i >= 3 THEN PbName(v, i - 2) ELSE PbName(v, 1))
     \* "cycle": no dividers; at every level two names alternate, so a key comes back after another one (A, B, A)
@@ -46,7 +49,7 @@ PbText(c, v, r) ==
 (* removed from the display, and the caller's per-cell border patterns     *)
 ---------------------------------------------------------------------------
 \* a column is <<"g", level>> (page_by), <<"s", 0>> (subline_by) or <<"d", k>> (data)
-GroupCols(c) == LET g == (IF HasPB(c) THEN [v \in 1..c.nlev |-> <<"g", v>>] ELSE <<>>) \o (IF HasSub(c) THEN << <<"s", 0>> >> ELSE <<>>)
+GroupCols(c) == LET g == (IF HasPB(c) THEN [v \in 1..c.nlev |-> <<"g", v>>] ELSE <<>>) \o (IF HasSub(c) THEN (IF c.div = "collide" THEN << <<"s", 0>>, <<"s", 1>> >> ELSE << <<"s", 0>> >>) ELSE <<>>)
                 IN IF c.gpos = "rev" THEN [k \in 1..Len(g) |-> g[Len(g) + 1 - k]] ELSE g
 DataCols(c) == [k \in 1..c.ndata |-> <<"d", k>>]
 RECURSIVE Interleave(_, _)
@@ -72,7 +75,14 @@ StyleVec(c, style) == [k \in 1..Len(KeptIdx(c)) |-> style]
 
 RECURSIVE CountTrue(_, _)
 CountTrue(s, r) == IF r = 0 THEN 0 ELSE (IF s[r] THEN 1 ELSE 0) + CountTrue(s, r - 1)
-SubText(c, r) == LET i == CountTrue(c.schg, r) IN "~S" \o ToString(IF c.div = "cycle" THEN ((i - 1) % 2) + 1 ELSE i) \o "~"
+RECURSIVE Ones1(_)
+Ones1(n) == IF n <= 0 THEN "" ELSE "1" \o Ones1(n - 1)
+\* "collide": subline_by has TWO columns whose values differ from group to group while their plain concatenation
+\* is the same for every group ("~S1" + "11~", "~S11" + "1~", ...); the heading joins them with ", "
+SubText(c, r) ==
+  LET i == CountTrue(c.schg, r) IN
+    IF c.div = "collide" THEN "~S" \o Ones1(i) \o ", " \o Ones1(CountTrue(c.schg, c.n) + 1 - i) \o "~"
+    ELSE "~S" \o ToString(IF c.div = "cycle" THEN ((i - 1) % 2) + 1 ELSE i) \o "~"
 
 Derive(c) ==
   c @@ [haspb |-> HasPB(c), hassub |-> HasSub(c),
